@@ -2,14 +2,41 @@
 tree for one scenario, validate every leaf path-wise against the specification's
 transition relation (early exit on the first impossible event), then compare the
 next-event kernel / clock rate / stopping behaviour at every history."""
-from . import kernel, observe
-from .scripted import explore, Incomplete
+from . import kernel, observe, confirm
+from .scripted import explore, Incomplete, Unmodelled
+
+N_CONFIRM = 20000        # seeded real runs used to confirm an exact-stage finding
+N_UNMODELLED = 5000      # seeded real runs per scenario when the scripted source cannot follow the implementation
 
 
-def walk(fn_full, parse, st0, succ, rate_unit, horizon, max_exp, max_leaves=60000, cls=""):
+def settle(problems, unmodelled, real, st0, succ, rate_unit, cls, seed0=0):
+    """Exact-stage findings that depend on the scripted source modelling the implementation's use of random numbers
+    are replaced by what seeded runs with the real random source confirm (harness/confirm.py).
+    returns (problems, info or None)"""
+    need = confirm.needs_confirmation(problems)
+    if not need and unmodelled is None:
+        return problems, None
+    if real is None:
+        if unmodelled is not None:
+            raise Unmodelled(unmodelled)
+        return problems, None
+    n = N_UNMODELLED if (unmodelled is not None and not need) else N_CONFIRM
+    conf, cstats = confirm.confirm(real, st0, succ, rate_unit, n, seed0=seed0)
+    kept = [p for p in problems if p["kind"] not in confirm.CONFIRMABLE]
+    for c in conf:
+        c["cls"] = cls
+        c["detail"] += " [exact stage: %s]" % ("; ".join(sorted({p["kind"] for p in need})) or "not applicable: " + str(unmodelled))
+    info = {"runs": cstats["runs"], "histories": cstats["histories"], "tests": cstats["tests"],
+            "exact_stage": sorted({p["kind"] for p in need}), "unmodelled": unmodelled, "confirmed": sorted({c["kind"] for c in conf}),
+            "example": (need[0]["detail"] if need else None)}
+    return kept + conf, info
+
+
+def walk(fn_full, parse, st0, succ, rate_unit, horizon, max_exp, max_leaves=60000, cls="", real=None):
     """parse(leaf) -> (events, problems) where problems is a list of dicts(kind, detail);
     succ(st) -> [(event_key, rate_numerator, st2)].
-    returns dict(problems, leaves, events, nodes, recs)"""
+    real(seed) -> one run with the real random source (see confirm.confirm), used to settle findings that depend on
+    the scripted source.   returns dict(problems, leaves, events, nodes, recs, settled)"""
     problems = []
     recs = []
     counters = {"events": 0}
@@ -41,7 +68,13 @@ def walk(fn_full, parse, st0, succ, rate_unit, horizon, max_exp, max_leaves=6000
         counters["events"] += len(ev)
         return False
 
-    leaves = explore(fn_full, max_exp=max_exp, on_leaf=on_leaf, max_leaves=max_leaves, deep_is_error=(max_exp is not None))
+    unmodelled = None
+    try:
+        leaves = explore(fn_full, max_exp=max_exp, on_leaf=on_leaf, max_leaves=max_leaves, deep_is_error=(max_exp is not None))
+    except Unmodelled as ex:
+        unmodelled = str(ex)
+        leaves = Incomplete()
+        del problems[:]
     stats = {"nodes": 0}
     if not isinstance(leaves, Incomplete):
         for r in recs:
@@ -52,4 +85,7 @@ def walk(fn_full, parse, st0, succ, rate_unit, horizon, max_exp, max_leaves=6000
             problems.append(p)
     else:
         recs = []
-    return {"problems": problems, "leaves": len(leaves), "events": counters["events"], "nodes": stats["nodes"], "recs": recs}
+    problems, info = settle(problems, unmodelled, real, st0, succ, rate_unit, cls)
+    if info is not None and (info["unmodelled"] or info["exact_stage"]):
+        recs = [] if info["unmodelled"] else recs
+    return {"problems": problems, "leaves": len(leaves), "events": counters["events"], "nodes": stats["nodes"], "recs": recs, "settled": info}
